@@ -31,6 +31,8 @@ pub trait Pool {
     fn addr(&self, f: usize) -> u64;
     /// call target f; Ok(name of who answered) or Err(panic message)
     fn call(&self, f: usize, matching: bool) -> Result<String, String>;
+    /// same call, but a panic raised by the fake propagates to the caller
+    fn call_nocatch(&self, f: usize, matching: bool) -> String;
     fn install(&self, inj: &mut InjectorPP, s: &InstallSpec);
     fn flavours(&self, kind: &str) -> Vec<&'static str>;
 }
@@ -169,6 +171,13 @@ impl Pool for RustPool {
         let t = black_box(rust_target(f));
         let x = if matching { 1 } else { BAD_ARG };
         catch_call(|| t(x)).map(|r| interpret(LAST.load(SeqCst), r, f))
+    }
+    fn call_nocatch(&self, f: usize, matching: bool) -> String {
+        LAST.store(0, SeqCst);
+        let t = black_box(rust_target(f));
+        let x = if matching { 1 } else { BAD_ARG };
+        let r = t(x);
+        interpret(LAST.load(SeqCst), r, f)
     }
     fn flavours(&self, kind: &str) -> Vec<&'static str> {
         match kind {
